@@ -67,11 +67,13 @@ pub fn hexs(b: &[u8]) -> String { crate::util::hexf(b) }
 
 pub fn ids_str(ids: Option<&[PublicKeyCredentialDescriptor]>) -> String {
     match ids {
-        None => "NONE".into(),
-        Some(l) if l.is_empty() => "EMPTY".into(),
+        None => "N".into(),
+        Some(l) if l.is_empty() => "E".into(),
         Some(l) => l.iter().map(|d| hexs(&d.id)).collect::<Vec<_>>().join(","),
     }
 }
+pub fn opt_hex(b: Option<&[u8]>) -> String { b.map(hexs).unwrap_or("N".into()) }
+pub fn opt_num(c: Option<u32>) -> String { c.map(|c| c.to_string()).unwrap_or("N".into()) }
 
 /// The documented lookup contract: match by id list *and* RP ID; store order kept.
 pub struct RefStore {
@@ -112,10 +114,12 @@ pub struct RecStore<S> {
     /// yield (return Pending once) before every call: creates a suspension point
     pub yields: bool,
     pub disc_override: Option<fn() -> DiscoverabilitySupport>,
+    /// the passkey handed to the last save_credential call (also when the call was made to fail)
+    pub last_saved: Arc<Mutex<Option<Passkey>>>,
 }
 impl<S> RecStore<S> {
     pub fn new(inner: S, log: Log) -> Self {
-        RecStore { inner, log, faults: vec![], calls: Arc::new(Mutex::new(0)), yields: false, disc_override: None }
+        RecStore { inner, log, faults: vec![], calls: Arc::new(Mutex::new(0)), yields: false, disc_override: None, last_saved: Arc::new(Mutex::new(None)) }
     }
     fn next_fault(&self) -> Option<u8> {
         let mut c = self.calls.lock().unwrap();
@@ -129,30 +133,37 @@ impl<S: CredentialStore<PasskeyItem = Passkey> + Send + Sync> CredentialStore fo
     type PasskeyItem = Passkey;
     async fn find_credentials(&self, ids: Option<&[PublicKeyCredentialDescriptor]>, rp_id: &str) -> Result<Vec<Passkey>, StatusCode> {
         if self.yields { yield_once().await; }
-        push(&self.log, format!("find ids={} rp={}", ids_str(ids), hexs(rp_id.as_bytes())));
-        if let Some(e) = self.next_fault() { push(&self.log, format!("find-fault {:02x}", e)); return Err(StatusCode::from(e)); }
+        let head = format!("find:{}:{}", ids_str(ids), hexs(rp_id.as_bytes()));
+        if let Some(e) = self.next_fault() { push(&self.log, format!("{}:err:{}", head, e)); return Err(StatusCode::from(e)); }
         let r = self.inner.find_credentials(ids, rp_id).await;
         match r {
-            Ok(v) => { push(&self.log, format!("found {}", v.iter().map(|p| hexs(&p.credential_id)).collect::<Vec<_>>().join(","))); Ok(v) }
-            Err(e) => { let b = u8::from(e); push(&self.log, format!("find-err {:02x}", b)); Err(StatusCode::from(b)) }
+            Ok(v) => { push(&self.log, format!("{}:ok:{}", head, if v.is_empty() { "E".to_string() } else { v.iter().map(|p| hexs(&p.credential_id)).collect::<Vec<_>>().join(",") })); Ok(v) }
+            Err(e) => { let b = u8::from(e); push(&self.log, format!("{}:err:{}", head, b)); Err(StatusCode::from(b)) }
         }
     }
     async fn save_credential(&mut self, cred: Passkey, u: PublicKeyCredentialUserEntity, r: PublicKeyCredentialRpEntity, o: Options) -> Result<(), StatusCode> {
         if self.yields { yield_once().await; }
-        push(&self.log, format!("save id={} rp={} rpent={} uh={} ctr={} user={} rk={} up={} uv={}", hexs(&cred.credential_id), hexs(cred.rp_id.as_bytes()), hexs(r.id.as_bytes()),
-            cred.user_handle.as_ref().map(|h| hexs(h)).unwrap_or("NONE".into()), cred.counter.map(|c| c.to_string()).unwrap_or("NONE".into()), hexs(&u.id), o.rk, o.up, o.uv));
-        if let Some(e) = self.next_fault() { push(&self.log, format!("save-fault {:02x}", e)); return Err(StatusCode::from(e)); }
+        let head = format!("save:{}:{}:{}:{}:{}:{}{}{}", hexs(&cred.credential_id), hexs(cred.rp_id.as_bytes()), opt_hex(cred.user_handle.as_deref().map(|v| &v[..])),
+            opt_num(cred.counter), hexs(&u.id), o.rk as u8, o.up as u8, o.uv as u8);
+        *self.last_saved.lock().unwrap() = Some(cred.clone());
+        if r.id != cred.rp_id { push(&self.log, format!("rp-entity-differs:{}", hexs(r.id.as_bytes()))); }
+        if let Some(e) = self.next_fault() { push(&self.log, format!("{}:{}", head, e)); return Err(StatusCode::from(e)); }
+        push(&self.log, format!("{}:ok", head));
         self.inner.save_credential(cred, u, r, o).await
     }
     async fn update_credential(&mut self, cred: Passkey) -> Result<(), StatusCode> {
         if self.yields { yield_once().await; }
-        push(&self.log, format!("update id={} ctr={}", hexs(&cred.credential_id), cred.counter.map(|c| c.to_string()).unwrap_or("NONE".into())));
-        if let Some(e) = self.next_fault() { push(&self.log, format!("update-fault {:02x}", e)); return Err(StatusCode::from(e)); }
-        self.inner.update_credential(cred).await
+        let head = format!("update:{}:{}", hexs(&cred.credential_id), opt_num(cred.counter));
+        if let Some(e) = self.next_fault() { push(&self.log, format!("{}:{}", head, e)); return Err(StatusCode::from(e)); }
+        match self.inner.update_credential(cred).await {
+            Ok(()) => { push(&self.log, format!("{}:ok", head)); Ok(()) }
+            Err(e) => { let b = u8::from(e); push(&self.log, format!("{}:{}", head, b)); Err(StatusCode::from(b)) }
+        }
     }
     async fn get_info(&self) -> StoreInfo {
         if self.yields { yield_once().await; }
         { let mut c = self.calls.lock().unwrap(); *c += 1; }
+        push(&self.log, "info".to_string());
         match self.disc_override { Some(f) => StoreInfo { discoverability: f() }, None => self.inner.get_info().await }
     }
 }
@@ -175,7 +186,7 @@ impl UserValidationMethod for Uv {
     type PasskeyItem = Passkey;
     async fn check_user<'a>(&self, credential: Option<&'a Passkey>, presence: bool, verification: bool) -> Result<UserCheck, Ctap2Error> {
         if self.yields { yield_once().await; }
-        push(&self.log, format!("uv cred={} up={} uv={}", credential.map(|c| hexs(&c.credential_id)).unwrap_or("NONE".into()), presence, verification));
+        push(&self.log, format!("uv:{}:{}:{}", credential.map(|c| hexs(&c.credential_id)).unwrap_or("N".into()), presence as u8, verification as u8));
         match self.answer {
             Ok((p, v)) => Ok(UserCheck { presence: p, verification: v }),
             Err(c) => Err(Ctap2Error::try_from(c).unwrap_or(Ctap2Error::OperationDenied)),
